@@ -287,6 +287,9 @@ func modelNoReference() map[string][]modelStep {
 			stMkdir("/d"), stWrite("/d/f", "content"), stChmod("/d/f", 0o640), stChtimes("/d/f", 1000000000), stChmod("/d", 0o700), stChtimes("/d", 1200000000),
 			stWrite("/d/f", "new content"), stRename("/d", "/e"), stChmod("/e/f", 0o444), stWrite("/g", ""), stChtimes("/g", 86400), stChmod("/g", 0o755),
 		},
+		"root-removal": {
+			stWrite("/a", "a"), stMkdir("/d"), stWrite("/d/x", "x"), stRemove("/"), stRemoveAll("/"), stMkdir("/again"), stWrite("/again/f", "f"), stRemoveAll("."), stWrite("/last", "l"),
+		},
 		"symlinks": {
 			stWrite("/target.txt", "target"), stMkdir("/dir"), stSymlink("/target.txt", "/link"), stSymlink("/target.txt", "/dir/link2"),
 			stWrite("/other", "o"),
